@@ -39,6 +39,8 @@ func main() {
 		raceMain(os.Args[2:])
 	case "lock":
 		lockMain(os.Args[2:])
+	case "collide":
+		collideMain(os.Args[2:])
 	default:
 		fmt.Fprintln(os.Stderr, "unknown subcommand", os.Args[1])
 		os.Exit(2)
